@@ -19,7 +19,7 @@ for d in sorted((V/"seeded").glob("C*")):
             rows.append(row(d.name, tag, json.loads(f.read_text())))
 hdr = """# Seeded changes written by independent agents
 
-Two rounds. In each round a fresh agent saw only the text of three properties and a scratch worktree of /repo (nothing
+Three rounds. In each round a fresh agent saw only the text of three properties and a scratch worktree of /repo (nothing
 from /verif; in round 2 also a one-line summary of the round-1 seed, to avoid repeats) and wrote, per property, a change
 that breaks the property while the repository's suite still passes, with a demonstration; in round 2 also a
 behaviour-preserving refactor of the same area (`r2_benign.diff`), which a check must NOT report.
@@ -27,7 +27,8 @@ behaviour-preserving refactor of the same area (`r2_benign.diff`), which a check
 the clean tree and fails with the patch; the pinned suite passes with the patch, `tools/baseline.py <worktree>`) and ran
 `./check Cxx --tier quick` against the patched tree (and against the benign patch).
 Files: `patch.diff`, `demo_test.py`, `meta.json` (round 1) and `r2_patch.diff`, `r2_benign.diff`, `r2_demo_test.py`,
-`r2_meta.json` (round 2); `meta.json` holds the agent's description and the `confirmation` record.
+`r2_meta.json` (round 2), `r3_*` likewise (round 3: changes that need a history -- state left by an earlier operation, a
+cache, a second exchange, an option combination); `meta.json` holds the agent's description and the `confirmation` record.
 Column "reported at first" is the result of the first evaluation; "now" is the state after the checks were strengthened
 (column "strengthening"), re-verified with `tools/with_mutant.sh seeded/Cxx/<patch> ./check Cxx --tier quick`.
 
